@@ -383,6 +383,16 @@ def run(ctx: Ctx) -> None:
                 objs.append(O.obj3d(*box, uuid=f"o{k}", visibility=vis))
                 scale = s0 + 0.01 * (s100 - s0) * float(np.linalg.norm(box[:3]))
                 clouds.append(cloud_around(r, box, r.choice([0, 0, 1, 3, 10, 60]), 4, scale))
+            if objs and r.random() < 0.5:
+                # a second object overlapping an existing one, with returns inside the shared region
+                b0 = O.box_of(r.choice(objs))
+                c_, s_ = math.cos(b0[3]), math.sin(b0[3])
+                off = r.uniform(0.2, 0.8) * b0[4]
+                box = (b0[0] - s_ * off, b0[1] + c_ * off, b0[2], G.wrap_pi(b0[3] + r.uniform(-0.2, 0.2)), b0[4], b0[5], b0[6])
+                objs.insert(r.randrange(len(objs) + 1), O.obj3d(*box, uuid=f"ov{len(objs)}", visibility=Visibility.FULL))
+                mid = ((b0[0] + box[0]) / 2, (b0[1] + box[1]) / 2, b0[2], b0[3], b0[4] * 0.2, b0[5] * 0.6, b0[6] * 0.6)
+                clouds.append(cloud_around(r, mid, r.choice([3, 8, 60]), 4, 0.8))
+                ctx.count("C12.overlapping_objects")
             pc = np.vstack(clouds) if clouds else np.zeros((0, 4))
             if len(pc):
                 pc[:, -1] = np.arange(len(pc)) + 1.0
